@@ -768,4 +768,13 @@ example : (run {} optDemo).live = 0 ∧ (run {} optDemo).freed.length = 5 ∧ (r
 example : OptStore.Owns (run {} (optDemo.take 4)) 1 0 ∧ OptStore.Owns (run {} (optDemo.take 4)) 2 1 := by
   refine ⟨⟨⟨2, 40, 12, .big (.addr 0)⟩, by decide, by decide, rfl⟩, ⟨⟨2, 40, 12, .big (.addr 1)⟩, by decide, by decide, rfl⟩⟩
 
+/-- the hypotheses of `option_owner_destroyed_frees_block`, `option_copy_then_op`, `option_move_assign_transfers`
+    (both forms) and `option_erase_closes_gap` are met along this history: an owner is destroyed, a copy is followed by
+    an operation on its source, a heap-backed option is move-assigned to another and to itself, a vector of three
+    heap-backed / moved-from options loses its first element -/
+example : (step (run {} (optDemo.take 4)) (.del 2)).isSome ∧
+    (step (run {} (optDemo.take 3)) (.copy 2 1)).isSome ∧ (step (run {} (optDemo.take 4)) (.massign 1 2)).isSome ∧
+    (step (run {} (optDemo.take 5)) (.massign 0 1)).isSome ∧ (step (run {} (optDemo.take 9)) (.massign 2 2)).isSome ∧
+    (step (run {} (optDemo.take 10)) (.verase 0)).isSome ∧ (run {} (optDemo.take 10)).vlen = 3 := by decide
+
 end Tins.Props.C12
